@@ -208,6 +208,14 @@ def master_main(prop, tier, seed, replay_path=None, only_shard=None):
     work = os.path.join(boot.VERIF, '.work', f'{prop}-{tier}-{os.getpid()}')
     os.makedirs(work, exist_ok=True)
     replay_case = None
+    if not replay_path:
+        import glob
+        rdir0 = os.environ.get('VERIF_REPLAY_DIR') or os.path.join(boot.VERIF, 'replay')
+        for f in glob.glob(os.path.join(rdir0, f'{prop}-{tier}-*.json')):
+            try:
+                os.unlink(f)
+            except OSError:
+                pass
     if replay_path:
         with open(replay_path) as f:
             rp = json.load(f)
